@@ -704,6 +704,17 @@ pub fn gen_history(r: &mut Rng, files: &[(String, String)], nsteps: usize, edita
                 continue;
             }
         }
+        if k < 23 && !edits.iter().any(|e| e.kind == "new-file") {
+            // a file the project does not know yet is opened (lands in the anonymous library `work`): a copy of a unit
+            let us = unit_starts(&text);
+            if !us.is_empty() {
+                let ui = r.below(us.len());
+                let s = us[ui];
+                let e = if ui + 1 < us.len() { us[ui + 1] } else { text.len() };
+                edits.push(Edit { file: "opened_new.vhd".into(), range: None, text: text[s..e].to_string(), kind: "new-file".into() });
+                continue;
+            }
+        }
         // one to three mutations applied as separate changes (1 step each)
         let ed = mutate(r, &text);
         undo.push((fi, text.clone()));
